@@ -233,3 +233,20 @@ CHECKS["C05"] = dict(
               "kind:sync", "kind:qblock", "kind:qnonblock"],
     assumptions=_E1_ASSUME + ["ServeChannel's wait for the activation has no yield point: its task continues on its own (detached) and its return is ordered by sequence numbers"],
 )
+
+CHECKS["C09"] = dict(
+    test="TestC09", level="exploration",
+    quick=dict(shards=8, checks=2000, timeout=300),
+    thorough=dict(shards=16, checks=200000, timeout=3000, shrinktime="120s"),
+    rule="cooperative-scheduler cases: 2-4 writer tasks each calling Channel.Write 1-4 times on a sync or queued channel, message carriers "
+         "[]byte, [][]byte, *bytes.Buffer, *bytes.Reader, multi-write WriterTo, io.Reader (one chunk / several chunks / short reads), string "
+         "via the text codec; sizes 1-2500 around the 1024-byte streaming chunk; pipelines: none, delimiter, delimiter+text (the README "
+         "pipeline), length-field, varint; schedule with frequent switches. Oracle: the wire bytes at quiescence parse into whole messages "
+         "(call-id table without codecs, independent reference deframer with codecs); any frame/message with foreign bytes inside is a "
+         "violation whose signature names the carrier and path. Carriers belonging to a listed finding (messages the head handler streams "
+         "as several low-level writes) are excluded from the concurrent mix by construction and counted. Non-trivial = low-level writes of "
+         "different writers alternated at least twice on the channel. Distinct by case hash.",
+    required=["writers-alternate", "pipe:", "pipe:delim", "pipe:lf", "pipe:varint", "kind:sync", "kind:qblock", "carrier:bytes", "carrier:bb",
+              "carrier:buffer", "carrier:breader", "carrier:reader"],
+    assumptions=_E1_ASSUME,
+)
